@@ -17,7 +17,16 @@ def main() -> int:
     S.install()
     R = replay.Replayer(world, S)
     out = []
+    tf = job.get("trace_file")
+    sink = None
+    if tf:
+        from harness import tracer
+
+        sink = open(tf, "w")
+        tracer.install(sink)
     for n, beh in job["behaviours"]:
+        if sink is not None:
+            tracer.new_trace(n)
         try:
             r = R.run(beh)
             out.append({"n": n, "nsteps": r["nsteps"], "viol": r["viol"], "aborted": r["aborted"],
@@ -27,6 +36,8 @@ def main() -> int:
 
             out.append({"n": n, "nsteps": 0, "viol": [], "aborted": None, "cells": [], "len": len(beh) - 1,
                         "harness_error": f"{type(ex).__name__}: {ex}\n{traceback.format_exc()[-1500:]}"})
+    if sink is not None:
+        sink.close()
     json.dump(out, open(dst, "w"))
     return 0
 
